@@ -466,7 +466,10 @@ func scenUncommittedConfig(e *engineA) error {
 	for i := 0; i < 4; i++ {
 		e.cl.fsmOp(1, l, "update")
 	}
-	variant := e.cfg.paramInt("variant", e.rng.Intn(3))
+	variant := e.cfg.paramInt("variant", e.rng.Intn(4))
+	if variant == 3 {
+		return e.phantomConfig(l)
+	}
 	if _, err := e.cl.start(4, e.cl.dirOf(4)); err != nil {
 		return err
 	}
@@ -539,6 +542,87 @@ func scenUncommittedConfig(e *engineA) error {
 			e.sleepHB(1, 2)
 		}
 	}
+	return e.finish()
+}
+
+// phantomConfig (variant 3 of uncommitted-config; C08 / C19): the isolated
+// leader stores a request that asks for a change of voting rights (demote or
+// remove another voter); the entry is truncated after the heal. Then the
+// leadership is handed back to that node: nothing of the request that was
+// lost may be carried out.
+func (e *engineA) phantomConfig(l *Node) error {
+	fs := e.others(l)
+	x := fs[e.rng.Intn(len(fs))]
+	act := raft.Demote
+	if e.rng.Intn(2) == 0 {
+		act = raft.Remove
+	}
+	e.rc.emit(&ev.Rec{K: "fault", Op: fmt.Sprintf("isolate-leader-then-%v-another-voter", act), Nid: l.nid, ID: x.nid})
+	e.isolate(l, true)
+	go e.cl.changeConfig(l, fmt.Sprintf("%v(%d) on isolated leader", act, x.nid), func(conf *raft.Config) error {
+		return conf.SetAction(x.nid, act)
+	})
+	var nl *Node
+	if !e.waitFor(100, func() bool {
+		for _, f := range fs {
+			if info, ok := f.info(false); ok && info.State == raft.Leader {
+				nl = f
+				return true
+			}
+		}
+		return false
+	}) {
+		return fmt.Errorf("majority elected no leader")
+	}
+	for i := 0; i < 2+e.rng.Intn(3); i++ {
+		e.cl.fsmOp(1, nl, "update")
+	}
+	e.waitFor(40, func() bool {
+		info, ok := l.info(false)
+		return ok && info.State != raft.Leader
+	})
+	e.rc.emit(&ev.Rec{K: "fault", Op: "heal", Nid: l.nid})
+	e.isolate(l, false)
+	e.waitFor(40, func() bool {
+		a, ok1 := l.info(false)
+		b, ok2 := nl.info(false)
+		return ok1 && ok2 && a.Committed >= b.Committed && b.State == raft.Leader
+	})
+	if e.rng.Intn(2) == 0 {
+		// the majority changes another voter: every node goes from the
+		// configuration it operates under to the new one
+		for _, y := range fs {
+			if y != x {
+				e.cl.changeConfig(nl, fmt.Sprintf("demote(%d) by the majority's leader", y.nid), func(conf *raft.Config) error {
+					return conf.SetAction(y.nid, raft.Demote)
+				})
+			}
+		}
+		e.sleepHB(2, 3)
+		if cur := e.cl.leader(); cur != nil {
+			nl = cur
+		}
+	}
+	if nl != l {
+		e.rc.emit(&ev.Rec{K: "fault", Op: "hand-leadership-back", Nid: nl.nid, ID: l.nid})
+		e.cl.transfer(nl, l.nid, 20*e.hb())
+		e.sleepHB(2, 3)
+	}
+	if cur := e.cl.leader(); cur != nil {
+		for i := 0; i < 3; i++ {
+			e.cl.fsmOp(1, cur, "update")
+		}
+		if e.rng.Intn(2) == 0 {
+			// the leader alone on its side: only a wrong voter set lets it go on
+			e.rc.emit(&ev.Rec{K: "fault", Op: "isolate-leader-again", Nid: cur.nid})
+			e.isolate(cur, true)
+			go e.cl.fsmOp(2, cur, "update")
+			e.sleepHB(3, 5)
+			e.isolate(cur, false)
+		}
+	}
+	e.startClients(2, map[string]int{"update": 3, "read": 1})
+	e.sleepHB(4, 8)
 	return e.finish()
 }
 
